@@ -15,6 +15,7 @@ import (
 	"k8s.io/apimachinery/pkg/util/intstr"
 	"k8s.io/cli-runtime/pkg/resource"
 	apisv1a "sigs.k8s.io/network-policy-api/apis/v1alpha1"
+	sigyaml "sigs.k8s.io/yaml"
 
 	"github.com/np-guard/netpol-analyzer/pkg/logger"
 	"github.com/np-guard/netpol-analyzer/pkg/netpol/connlist"
@@ -211,7 +212,18 @@ type ToolResult struct {
 	Errors   []connlist.ConnlistError
 }
 
-var quiet = logger.NewDefaultLoggerWithVerbosity(logger.LowVerbosity)
+// silent logger: the harness observes results and Errors(), never the log
+type silentLogger struct{}
+
+func (silentLogger) Debugf(string, ...interface{})        {}
+func (silentLogger) Infof(string, ...interface{})         {}
+func (silentLogger) Warnf(string, ...interface{})         {}
+func (silentLogger) Errorf(error, string, ...interface{}) {}
+
+var quiet logger.Logger = silentLogger{}
+
+// Quiet returns the silent logger.
+func Quiet() logger.Logger { return quiet }
 
 func parseIP(s string) uint32 {
 	var a, b, c, d uint32
@@ -346,4 +358,52 @@ func (w *World) Compare(tr ToolResult) []string {
 	}
 	sort.Strings(bad)
 	return bad
+}
+
+// ---------- single-object emitters (for checks that control the document order) ----------
+
+func InfoNS(n NS) *resource.Info {
+	return info(&corev1.Namespace{ObjectMeta: metav1.ObjectMeta{Name: n.Name, Labels: n.Labels}}, "v1", "Namespace")
+}
+func InfoNP(np *NP) *resource.Info { return info(np.K8s(), "networking.k8s.io/v1", "NetworkPolicy") }
+func InfoANP(a *ANP) *resource.Info {
+	return info(a.K8s(), "policy.networking.k8s.io/v1alpha1", "AdminNetworkPolicy")
+}
+
+// InfoBANP emits a BaselineAdminNetworkPolicy with the given metadata.name.
+func InfoBANP(a *ANP, name string) *resource.Info {
+	o := a.K8sB()
+	o.Name = name
+	return info(o, "policy.networking.k8s.io/v1alpha1", "BaselineAdminNetworkPolicy")
+}
+
+// InfoPod emits a bare Pod; owner != "" adds a controller ownerReference (ReplicaSet).
+func InfoPod(ns, name, owner string, labels map[string]string, ports []CPort) *resource.Info {
+	var cps []corev1.ContainerPort
+	for _, cp := range ports {
+		cps = append(cps, corev1.ContainerPort{Name: cp.Name, ContainerPort: int32(cp.Num), Protocol: corev1.Protocol(cp.Proto)})
+	}
+	p := &corev1.Pod{ObjectMeta: metav1.ObjectMeta{Name: name, Namespace: ns, Labels: labels},
+		Spec:   corev1.PodSpec{Containers: []corev1.Container{{Name: "c", Image: "x", Ports: cps}}},
+		Status: corev1.PodStatus{HostIP: "192.168.1.1", PodIPs: []corev1.PodIP{{IP: "10.0.0.1"}}}}
+	if owner != "" {
+		t := true
+		p.OwnerReferences = []metav1.OwnerReference{{Kind: "ReplicaSet", Name: owner, APIVersion: "apps/v1", Controller: &t}}
+	}
+	return info(p, "v1", "Pod")
+}
+
+func InfoWorkload(wl Workload) *resource.Info {
+	w := World{WLs: []Workload{wl}}
+	return w.Infos()[0]
+}
+
+// InfoYAML renders infos as YAML documents.
+func InfoYAML(infos []*resource.Info) []string {
+	var res []string
+	for _, inf := range infos {
+		b, _ := sigyaml.Marshal(inf.Object)
+		res = append(res, string(b))
+	}
+	return res
 }
